@@ -16,6 +16,8 @@ import (
 
 	"github.com/zeromicro/go-zero/core/breaker"
 	"github.com/zeromicro/go-zero/core/logx"
+	"github.com/zeromicro/go-zero/core/stores/cache"
+	"github.com/zeromicro/go-zero/core/stores/redis"
 	"github.com/zeromicro/go-zero/core/stores/sqlx"
 	"github.com/zeromicro/go-zero/internal/verifc14"
 	"github.com/zeromicro/go-zero/internal/verifh"
@@ -39,8 +41,8 @@ func c14Gen(r *verifh.Rng) []verifh.Section {
 		secs = append(secs, verifh.Section{Cfg: "via=cached accept=none", Ops: verifc14.Exhaustive(api, verifh.Scale(3, 5))})
 	}
 	classes := []string{"plain", "norows", "txdone", "canceled", "userok", "userok2"}
-	for _, c := range []struct{ api, acc string }{{"plain", "none"}, {"ctx", "both"}, {"plain", "user2"}} {
-		secs = append(secs, verifh.Section{Cfg: "via=cached accept=" + c.acc, Ops: verifc14.ExhaustiveAcc(c.api, classes, verifh.Scale(2, 3), 0)})
+	for _, c := range []struct{ api, acc, cons string }{{"plain", "none", "node"}, {"ctx", "both", "conf"}, {"plain", "user2", "cache"}} {
+		secs = append(secs, verifh.Section{Cfg: "via=cached accept=" + c.acc + " cons=" + c.cons, Ops: verifc14.ExhaustiveAcc(c.api, classes, verifh.Scale(2, 3), 0)})
 	}
 	nsec := verifh.Scale(30, 600)
 	for i := 0; i < nsec; i++ {
@@ -49,7 +51,8 @@ func c14Gen(r *verifh.Rng) []verifh.Section {
 		for j := 0; j < n; j++ {
 			ops = append(ops, verifc14.GenOp(r, []string{"plain", "ctx", "ctx", "ctx", "ctxdone", "ctxdead"}, classes, verifh.Scale(6, 12), false))
 		}
-		secs = append(secs, verifh.Section{Cfg: "via=cached accept=" + r.PickS("none", "user", "user2", "both"), Ops: ops})
+		secs = append(secs, verifh.Section{Cfg: "via=cached accept=" + r.PickS("none", "user", "user2", "both", "none", "user", "both", "usernil", "niluser") +
+			" cons=" + r.PickS("cache", "cache", "node", "conf") + " reuse=" + r.PickS("0", "1", "1"), Ops: ops})
 	}
 	return secs
 }
@@ -68,13 +71,45 @@ func TestVerifC14Cached(t *testing.T) {
 			opts = append(opts, f2)
 		case "both":
 			opts = append(opts, f1, f2)
+		case "nil":
+			opts = append(opts, sqlx.WithAcceptable(nil))
+		case "usernil":
+			opts = append(opts, f1, sqlx.WithAcceptable(nil))
+		case "niluser":
+			opts = append(opts, sqlx.WithAcceptable(nil), f1)
 		}
 		drv := verifc14.NewDrv()
 		db := sql.OpenDB(drv)
+		cons := cfg.Str("cons", "cache")
+		if cons != "cache" && cons != "node" && cons != "conf" {
+			panic("c14: bad cons " + cons)
+		}
+		reuse := cfg.Int("reuse", 0) == 1
+		var shared *CachedConn
+		// through each constructor of a CachedConn (the redis node is never contacted: a transaction does not touch
+		// the cache)
+		mk := func() CachedConn {
+			switch cons {
+			case "node":
+				return NewNodeConn(sqlx.NewSqlConnFromDB(db, opts...), redis.New("127.0.0.1:1"))
+			case "conf":
+				return NewConn(sqlx.NewSqlConnFromDB(db, opts...), cache.CacheConf{{
+					RedisConf: redis.RedisConf{Host: "127.0.0.1:1", Type: redis.NodeType, NonBlock: true}, Weight: 100}})
+			}
+			return NewConnWithCache(sqlx.NewSqlConnFromDB(db, opts...), nil)
+		}
 		call := func(api, kind string, _ bool, _ int, body func(verifc14.Sess) error, mark *string, _ *verifc14.Core) error {
 			*mark = "?"
 			// a fresh SqlConn (fresh breaker) per operation: the breaker never has a history to trip on
-			cc := NewConnWithCache(sqlx.NewSqlConnFromDB(db, opts...), nil)
+			// a fresh CachedConn per operation, or (reuse=1) ONE CachedConn for all calls of the section: whatever an
+			// entry point keeps between calls, and the real breaker's history, then carry over
+			cc := mk()
+			if reuse {
+				if shared == nil {
+					shared = &cc
+				}
+				cc = *shared
+			}
 			var ctx context.Context
 			var end func(bool)
 			switch {
@@ -98,6 +133,18 @@ func TestVerifC14Cached(t *testing.T) {
 				end(false)
 			case "ctxdead":
 				end(true)
+			}
+			if ctx != nil {
+				ctx = context.WithValue(ctx, verifc14.CtxKey{}, verifc14.CtxVal)
+			}
+			cvOf := func(c context.Context) string {
+				if c == nil {
+					return "-"
+				}
+				if v, _ := c.Value(verifc14.CtxKey{}).(string); v == verifc14.CtxVal {
+					return "1"
+				}
+				return "0"
 			}
 			nested := func(err error, ran bool) error {
 				if ran {
@@ -159,6 +206,37 @@ func TestVerifC14Cached(t *testing.T) {
 						}
 						return err
 					},
+					QueryPartial: func(q string) error {
+						var out []string
+						var err error
+						if c != nil {
+							err = s.QueryRowsPartialCtx(c, &out, q)
+						} else {
+							err = s.QueryRowsPartial(&out, q)
+						}
+						if err == nil && (len(out) != 1 || out[0] != "c14") {
+							return fmt.Errorf("c14: unexpected rows %v", out)
+						}
+						return err
+					},
+					QueryRowPartial: func(q string) error {
+						var out string
+						var err error
+						if c != nil {
+							err = s.QueryRowPartialCtx(c, &out, q)
+						} else {
+							err = s.QueryRowPartial(&out, q)
+						}
+						if err == nil && out != "c14" {
+							return fmt.Errorf("c14: unexpected row %v", out)
+						}
+						return err
+					},
+					RawDB: func() (bool, error) {
+						raw, err := sqlx.NewSqlConnFromSession(s).RawDB()
+						return raw != nil, err
+					},
+					CV: cvOf(c),
 					Nest: func() error {
 						ran := false
 						err := cc.WithSession(s).Transact(func(sqlx.Session) error {
